@@ -28,7 +28,23 @@ import (
 // true if the first element of the proof set is a leaf of data in the Merkle
 // root. False is returned if the proof set or Merkle root is nil, and if
 // 'numLeaves' equals 0.
-func VerifyProof(h hash.Hash, merkleRoot []byte, proofSet [][]byte, proofIndex uint64, numLeaves uint64) bool {
+//
+// The proof set comes from an untrusted prover: an element that the hasher
+// refuses to absorb (MiMC and Poseidon2 only accept canonical field elements)
+// makes the proof invalid. VerifyProof returns false in that case too; it
+// does not panic.
+func VerifyProof(h hash.Hash, merkleRoot []byte, proofSet [][]byte, proofIndex uint64, numLeaves uint64) (ok bool) {
+	defer func() {
+		if r := recover(); r != nil {
+			ok = false
+		}
+	}()
+	return verifyProof(h, merkleRoot, proofSet, proofIndex, numLeaves)
+}
+
+// verifyProof is VerifyProof without the guard: sum panics when the hasher
+// returns an error.
+func verifyProof(h hash.Hash, merkleRoot []byte, proofSet [][]byte, proofIndex uint64, numLeaves uint64) bool {
 	// Return false for nonsense input. A switch statement is used so that the
 	// cover tool will reveal if a case is not covered by the test suite. This
 	// would not be possible using a single if statement due to the limitations
